@@ -41,6 +41,10 @@ fam({'C09': ('keys', 'all'), 'C10': ('main', 'all')},
     mc_quick=[('ExclusiveL2', 'ExclusiveL2'), ('ExclusiveL2', 'ExclusiveL2_neg'), ('ExclusiveL2', 'ExclusiveL2_witness')],
     mc_thorough=[('ExclusiveL2', 'ExclusiveL2_big'), ('ExclusiveL2', 'ExclusiveL2_neg'), ('ExclusiveL2', 'ExclusiveL2_witness')],
     n=(80, 300, 2000, 6000))
+fam({'C06': ('main', 'all'), 'C07': ('main', 'all')},
+    driver='pubsub', tv='PubSubTV',
+    mc_quick=[('PubSubL2', 'PubSubL2')], mc_thorough=[('PubSubL2', 'PubSubL2'), ('PubSubL2', 'PubSubL2_2s'), ('PubSubL2', 'PubSubL2_3u')],
+    n=(80, 300, 2000, 8000))
 
 
 def sig_of(rej):
